@@ -5,7 +5,19 @@ from prosemirror.model import ContentMatch, Node, NodeRange, NodeType, Slice
 from prosemirror.utils import Attrs
 
 
-def can_cut(node: Node, start: int, end: int) -> bool:
+def can_cut(
+    node: Node,
+    start: int,
+    end: int,
+    split_before: bool = False,
+    split_after: bool = False,
+) -> bool:
+    # split_before / split_after: the child between start and end is itself cut
+    # deeper down and leaves a part behind on that side, which stays in this node
+    if split_before:
+        start += 1
+    if split_after:
+        end -= 1
     if start == 0 or node.can_replace(start, node.child_count):
         return (end == node.child_count) or node.can_replace(0, end)
     return False
@@ -15,18 +27,25 @@ def lift_target(range_: NodeRange) -> int | None:
     parent = range_.parent
     content = parent.content.cut_by_index(range_.start_index, range_.end_index)
     depth = range_.depth
+    split_before = split_after = False
     while True:
         node = range_.from_.node(depth)
         index = range_.from_.index(depth)
         end_index = range_.to.index_after(depth)
-        if depth < range_.depth and node.can_replace(index, end_index, content):
+        if depth < range_.depth and node.can_replace(
+            index + (1 if split_before else 0),
+            end_index - (1 if split_after else 0),
+            content,
+        ):
             return depth
         if (
             depth == 0
             or node.type.spec.get("isolating")
-            or not can_cut(node, index, end_index)
+            or not can_cut(node, index, end_index, split_before, split_after)
         ):
             break
+        split_before = split_before or index > 0
+        split_after = split_after or end_index < node.child_count
         depth -= 1
 
     return None
